@@ -83,6 +83,11 @@ func (dist *GeometricDistribution) LogPdf(r Scalar, x ConstScalar) error {
     r.SetFloat64(math.Inf(-1))
     return nil
   }
+  if x.GetFloat64() == 0.0 {
+    // p (1-p)^0 = p, also for p = 1 where 0*log(1-p) is not defined
+    r.Set(dist.p1)
+    return nil
+  }
   r.Mul(x, dist.p2)
   r.Add(r, dist.p1)
 
